@@ -126,6 +126,17 @@ def run(ctx):
                 if tuple(y.shape) != tuple(shape):
                     ctx.violation("C13/forward/shape", "forward(x, csi, noise): input shape %s, output shape %s" % (shape, tuple(y.shape)), rep)
                     continue
+                # the same input held as a permuted view (non-contiguous strides): the same output
+                if len(shape) >= 2 and min(shape[0], shape[1]) > 1:
+                    xv = x.transpose(0, 1).contiguous().transpose(0, 1)
+                    x0 = xv.clone()
+                    try:
+                        yv = ch(xv, csi=h, noise=nz)
+                        ctx.count("view-cases")
+                        if not torch.equal(xv, x0) or tuple(yv.shape) != tuple(y.shape) or not torch.equal(yv, y):
+                            ctx.violation("C13/forward/view", "forward(x, csi, noise) on an input of shape %s held with strides %s differs from the same values held contiguously (or modifies the input)" % (shape, tuple(xv.stride())), rep)
+                    except Exception:
+                        ctx.count("views-rejected")
                 xc = (x if cplx else torch.complex(x, torch.zeros_like(x))).reshape(B, L)
                 add("c13_forward_ok %s %s %s %s" % (cc(h), cc(xc), cc(nz), cc(y)), "C13/forward/supplied-csi-noise",
                     "forward(x, csi=h, noise=n) differs from h.x + n for input shape %s (%s)" % (shape, "complex" if cplx else "real"), rep)
